@@ -48,3 +48,46 @@ Fixpoint evolves (t1 t2 : ty) {struct t1} : bool :=
   | TDelim i x, TDelim i' x' => (x =? x') && evolves i i'
   | _, _ => false
   end.
+
+(* ---------- values across revisions ---------- *)
+From PV Require Import Serdes.Model.
+
+(* [conv t t' v]: what a reader of type t' makes of the (canonical) value v written with type t when [evolves t t']:
+   common leading fields of a nested delimited structure keep their values, fields the writer does not know read as
+   the zero value, fields the reader does not know are dropped; everything else is unchanged. *)
+Section ConvHelpers.
+Variable C : ty -> ty -> val -> val.
+Fixpoint conv_fields (fs gs : list (option str * ty)) (vs : list val) : list val :=
+  match fs with
+  | [] => default_fields default_value gs
+  | (None, _) :: fr => match gs with [] => [] | _ :: gr => conv_fields fr gr vs end
+  | (Some _, t) :: fr =>
+      match gs with
+      | [] => []
+      | g :: gr => match vs with [] => [] | v :: vs' => C t (snd g) v :: conv_fields fr gr vs' end
+      end
+  end.
+Fixpoint conv_variant (fs gs : list (option str * ty)) (k : nat) (x : val) : val :=
+  match fs with
+  | [] => x
+  | f :: fr =>
+      match gs with
+      | [] => x
+      | g :: gr => match k with O => C (snd f) (snd g) x | S k' => conv_variant fr gr k' x end
+      end
+  end.
+End ConvHelpers.
+
+Fixpoint conv (t t' : ty) (v : val) {struct t} : val :=
+  match t with
+  | TFix e _ =>
+      match t', v with (TFix e' _ | TVar e' _), VList vs => VList (map (conv e e') vs) | _, _ => v end
+  | TVar e _ =>
+      match t', v with (TFix e' _ | TVar e' _), VList vs => VList (map (conv e e') vs) | _, _ => v end
+  | TStruct _ fs =>
+      match t', v with TStruct _ gs, VStruct vs => VStruct (conv_fields conv fs gs vs) | _, _ => v end
+  | TUnion _ fs =>
+      match t', v with TUnion _ gs, VUnion k x => VUnion k (conv_variant conv fs gs (Z.to_nat k) x) | _, _ => v end
+  | TDelim i _ => match t' with TDelim i' _ => conv i i' v | _ => v end
+  | _ => v
+  end.
